@@ -306,6 +306,18 @@ func (p *Peer) wsHandler(w http.ResponseWriter, r *http.Request) {
 	}
 }
 
+// CloseFrame performs the websocket closing handshake from the peer's side with the given status code
+// (no-op on other kinds): a close frame is sent, then the connection is closed.
+func (p *Peer) CloseFrame(code int) {
+	if l, ok := p.link().(*wsLink); ok {
+		l.mu.Lock()
+		l.c.WriteControl(websocket.CloseMessage, websocket.FormatCloseMessage(code, "bye"), time.Now().Add(time.Second))
+		l.mu.Unlock()
+		time.Sleep(2 * time.Millisecond)
+		l.c.Close()
+	}
+}
+
 // Text sends a websocket text message on the current connection (no-op elsewhere).
 func (p *Peer) Text(b []byte) error {
 	if l, ok := p.link().(*wsLink); ok {
